@@ -96,7 +96,7 @@ def extraction_cross_check(ctx, po: dict) -> None:
     tmpd = tempfile.mkdtemp(prefix="verif_xc_")
     try:
         (Path(tmpd) / "Xc.v").write_text("\n".join(body) + "\n")
-        rc, out = sh(f"cd {VERIF}/coq && timeout 600 coqc -Q model PJ.Model -Q proofs PJ.Proofs -Q {tmpd} PJ.Xc {tmpd}/Xc.v", timeout=700)
+        rc, out = sh(f"cd {VERIF}/coq && timeout 1800 coqc -Q model PJ.Model -Q proofs PJ.Proofs -Q {tmpd} PJ.Xc {tmpd}/Xc.v", timeout=1900)
     finally:
         shutil.rmtree(tmpd, ignore_errors=True)
     ctx.report.count("extraction-cross-check/examples", len(used))
@@ -400,12 +400,12 @@ def _compile_tie(unit: str, t: dict, texts: dict) -> str | None:
             cmd = f"cd {VERIF}/coq && "
             if not gen_file.exists():
                 gen_file.write_text(texts[tu.get("unit", u)])
-                cmd += f"timeout 600 coqc {q} {tmpd}/gen/{tu['gen']}.v && "
+                cmd += f"timeout 1800 coqc {q} {tmpd}/gen/{tu['gen']}.v && "
             if with_tie:
-                cmd += f"timeout 600 coqc {q} -o {tmpd}/tie/{tu['tie']}.vo tie/{tu['tie']}.v"
+                cmd += f"timeout 1800 coqc {q} -o {tmpd}/tie/{tu['tie']}.vo tie/{tu['tie']}.v"
             else:
                 cmd += "true"
-            rc, out = sh(cmd, timeout=1300)
+            rc, out = sh(cmd, timeout=3700)
             closed = out.count("Closed under the global context")
             if rc != 0 or (with_tie and closed != len(tu["theorems"])) or "Axioms:" in out:
                 return (f"source tie {unit}: coq/tie/{tu['tie']}.v no longer proves {tu['theorems']} against the translation of "
@@ -427,7 +427,7 @@ def _prim_check(seed: int, n: int) -> tuple[str | None, int]:
     tmpd = tempfile.mkdtemp(prefix="verif_prim_")
     try:
         (Path(tmpd) / "PrimCases.v").write_text(primcheck.coq_file(cases))
-        rc, out = sh(f"cd {VERIF}/coq && timeout 600 coqc -Q tie PJ.Tie -Q {tmpd} PJ.Pc {tmpd}/PrimCases.v", timeout=700)
+        rc, out = sh(f"cd {VERIF}/coq && timeout 1800 coqc -Q tie PJ.Tie -Q {tmpd} PJ.Pc {tmpd}/PrimCases.v", timeout=1900)
     finally:
         shutil.rmtree(tmpd, ignore_errors=True)
     if rc == 0:
@@ -487,7 +487,7 @@ def _rdflib_literal_check(seed: int, n: int) -> tuple[str | None, int]:
     tmpd = tempfile.mkdtemp(prefix="verif_rlit_")
     try:
         (Path(tmpd) / "RlitCases.v").write_text("\n".join(body) + "\n")
-        rc, out = sh(f"cd {VERIF}/coq && timeout 600 coqc -Q model PJ.Model -Q {tmpd} PJ.Rl {tmpd}/RlitCases.v", timeout=700)
+        rc, out = sh(f"cd {VERIF}/coq && timeout 1800 coqc -Q model PJ.Model -Q {tmpd} PJ.Rl {tmpd}/RlitCases.v", timeout=1900)
     finally:
         shutil.rmtree(tmpd, ignore_errors=True)
     if rc == 0:
@@ -522,12 +522,12 @@ def _tx_check(ctx, repo: str, n: int, reader: bool, writer: bool, rdf: bool = Fa
             if p.returncode != 0:
                 return None, 0, {"note": "translator refuses the source (reported by the tie)"}
             (Path(tmpd) / "gen" / f"{gens[unit]}.v").write_text(p.stdout)
-            rc, out = sh(f"cd {VERIF}/coq && timeout 600 coqc {q} {tmpd}/gen/{gens[unit]}.v", timeout=700)
+            rc, out = sh(f"cd {VERIF}/coq && timeout 1800 coqc {q} {tmpd}/gen/{gens[unit]}.v", timeout=1900)
             if rc != 0:
                 return None, 0, {"note": "the generated code does not compile (reported by the tie)"}
         for fn, on in (("TxRun", True), ("TxRunRdflib", rdf), ("TxRunRdflibParse", rdfp)):
             if on:
-                rc, out = sh(f"cd {VERIF}/coq && timeout 600 coqc {q} -o {tmpd}/tie/{fn}.vo tie/{fn}.v", timeout=700)
+                rc, out = sh(f"cd {VERIF}/coq && timeout 1800 coqc {q} -o {tmpd}/tie/{fn}.vo tie/{fn}.v", timeout=1900)
                 if rc != 0:
                     return f"translation cross-check: coq/tie/{fn}.v does not compile against the translation of this tree: {out[-300:]}", 0, {}
         class _C:  # its own generator: the plan's sample does not depend on whether this check ran
@@ -566,7 +566,7 @@ def _tx_check(ctx, repo: str, n: int, reader: bool, writer: bool, rdf: bool = Fa
         def run_job(job):
             name, cs_, mk, what = job
             (Path(tmpd) / "cases" / f"{name}.v").write_text(mk(cs_))
-            rc_, out_ = sh(f"cd {VERIF}/coq && timeout 1500 coqc {q} -Q {tmpd}/cases PJ.Tx {tmpd}/cases/{name}.v", timeout=1600)
+            rc_, out_ = sh(f"cd {VERIF}/coq && timeout 3000 coqc {q} -Q {tmpd}/cases PJ.Tx {tmpd}/cases/{name}.v", timeout=3100)
             if rc_ == 0:
                 return None
             m = re.search(r"line (\d+)", out_)
